@@ -158,6 +158,8 @@ namespace ip {
 	{
 		queue_t q;
 		m_queue.swap(q);
+		// nothing is left to wait for
+		m_timer.cancel();
 		for (auto& r : q)
 		{
 			r.err = asio::error::operation_aborted;
